@@ -1,7 +1,7 @@
 from . import streams_geom, streams_kexact, streams_reconpar
 
 ID = 'C19'
-PROPS_MODULE = ['Refine.Props.C19', 'Refine.Props.C19Kexact']
+PROPS_MODULE = ['Refine.Props.C19', 'Refine.Props.C19Kexact', 'Refine.Props.C19Par']
 STREAMS = [streams_geom.GRAD, streams_geom.RECON]
 STREAMS += [streams_kexact.KX_LINALG, streams_kexact.KX_CLOUD, streams_kexact.KX_MESH]
 STREAMS += [streams_reconpar.RECONPAR]
